@@ -47,6 +47,7 @@ def parseSrvAct (langs : List Lang) (w : String) : Option (List Act) :=
   | ["AU", w, u] => do let w ← w.toNat?; let u ← u.toNat?; some [.recv (.addUser w u)]
   | ["AF", w, u] => do let w ← w.toNat?; let u ← u.toNat?; some [.recv (.addFile w u)]
   | ["I", u] => do let u ← u.toNat?; some [.recv (.ignore u)]
+  | ["K", k] => do let _ ← k.toNat?; some []   -- the client's configuration changes silently: no message
   | ["R", i, k] => do let i ← i.toNat?; let k ← k.toNat?; some [.reply i k]
   | _ => none
 
